@@ -157,6 +157,9 @@ type Engine struct {
 	Acks atomic.Int64
 }
 
+// Sum8 is the value digest used in read records.
+func Sum8(b []byte) [8]byte { return sum8(b) }
+
 func sum8(b []byte) [8]byte {
 	h := sha256.Sum256(b)
 	var o [8]byte
